@@ -117,7 +117,7 @@ CHECKS["C19"] = {
 CHECKS["C10"] = {
     "corpus": True,
     "runs": [R("./vm", {"fn": r"^ZZ_C10_"})],
-    "expect_asserts": [r"C10\.slice-read/int64/addressed-element", r"C10\.slice-slice/b:e:c/shares-storage", r"C10\.slice-write/int64/append-at-len", r"C10\.map-write/unhashable-key-is-error", r"C10\.string-write/in-range", r"C10\.typed-slice/store-converts-as-go", r"C10\.struct/unknown-field-read-is-error", r"C10\.read-is-a-value/copy-keeps-the-value-read/swap/.*", r"C10\.read-is-a-value/copy-keeps-the-value-read/defer-argument/.*", r"C10\.literal-is-fresh/each-evaluation-yields-a-new-container/.*", r"C10\.failed-operation/an-error-leaves-every-container-unchanged/.*", r"C10\.string-bytes/index-reads-the-addressed-byte", r"C10\.read-is-a-value/copy-keeps-the-value-read/left-operand-with-right-operand-shapes/.*"],
+    "expect_asserts": [r"C10\.slice-read/int64/addressed-element", r"C10\.slice-slice/b:e:c/shares-storage", r"C10\.slice-write/int64/append-at-len", r"C10\.map-write/unhashable-key-is-error", r"C10\.string-write/in-range", r"C10\.typed-slice/store-converts-as-go", r"C10\.struct/unknown-field-read-is-error", r"C10\.read-is-a-value/copy-keeps-the-value-read/swap/.*", r"C10\.read-is-a-value/copy-keeps-the-value-read/defer-argument/.*", r"C10\.literal-is-fresh/each-evaluation-yields-a-new-container/.*", r"C10\.failed-operation/an-error-leaves-every-container-unchanged/.*", r"C10\.string-bytes/index-reads-the-addressed-byte", r"C10\.delete/removes-the-addressed-entry/.*", r"C10\.read-is-a-value/copy-keeps-the-value-read/left-operand-with-right-operand-shapes/.*"],
     "bounds": {"slices": "len 0..3, cap len..len+1, symbolic int64 elements", "indices and bounds": "arbitrary int64 / float64 / int32 / bool and non-numeric classes (no bound on the value)",
                "maps": "0..3 entries over a key pool incl. nil and an unhashable key", "strings": "symbolic ASCII, length 0..3", "typed containers": "[]int64 with values of 6 classes; struct{A int64; B string; C []interface{}}",
                "histories": "single operations (step lemma) plus slice-then-append through two aliased variables; read-then-overwrite: 18 receiving forms (variable, var, parameter, variadic parameter, list / map literal, defer / go argument, function result, result under a deferred store, return list, swap, rotation, two targets, left operand of an arithmetic / comparison operator, spread assignment and var) x 8 containers ([]interface{}, []int64, two map types, struct value, struct pointer, slice of slices, slice of structs), symbolic payloads, from source text"},
